@@ -70,8 +70,10 @@ TABLE = {
                'a second or later frame with the same number of row labels as the aligned index but in a different order'),
     'C12-a2': ('C12', 'Frame.sort_values (axis=1, no key function) consolidates the key columns into one array before lexsort',
                'two or more key columns of different dtypes with values that the common dtype changes (integers above 2**53 next to floats)'),
-    'C13-a2': ('C13', '(see notes.md)', '(see notes.md)'),
-    'C14-a2': ('C14', '(see notes.md)', '(see notes.md)'),
+    'C13-a2': ('C13', 'Frame._axis_group_sort_items orders the columns (axis 1) with a bare np.argsort over the consolidated key row instead of sort_values',
+               'group iteration over columns by a row label on the sort fast path, with ties among the key values (the default quicksort does not keep their order)'),
+    'C14-a2': ('C14', 'Frame.count (skipna) calls isna_array only for object / float / complex vectors and counts every other vector by its length',
+               'a datetime64 or timedelta64 column containing NaT (axis 0), or an all-datetime Frame (axis 1)'),
     'C15-a2': ('C15', '_argminmax_2d returns the plain arg-extreme for every dtype kind that is not float / complex / object, forgetting NaT',
                'iloc_min / iloc_max / loc_min / loc_max with skipna=False on a Frame of datetime64 or timedelta64 values containing NaT'),
     'C16-a2': ('C16', 'Frame._to_str_records pads the header rows with one blank cell too few when writing the columns name above a hierarchical index',
